@@ -142,6 +142,13 @@ def matrix_stream(ck, tmp, world, envs):
         data = signed if sg else base
         jobs.append((tmp, f"m{i}", data, kn, kid, alg, keys.dir, action, None))
         meta.append((action, sg, alg, match, kn, kid, data))
+    # an UNSIGNED input whose digest bytes contain d2 84 (the way a tagged COSE_Sign1 begins): it bears no signature, whatever the action
+    import c04
+    d284 = c04.digest_with(b"\xd2\x84")
+    for j, alg in enumerate(ALGS):
+        for action in ACTIONS:
+            jobs.append((tmp, f"md{j}{action}", d284, keys.for_alg(alg, 0), 99, alg, keys.dir, action, None))
+            meta.append((action, False, alg, True, keys.for_alg(alg, 0), 99, d284))
     # a key replaced under its old identifier: the input is signed with the SAME algorithm and key identifier, by another key
     for j, alg in enumerate(ALGS):
         prev = sl.lib_single(tmp, base, keys.for_alg(alg, 1), 77, alg, keys.dir, "error")
@@ -153,7 +160,7 @@ def matrix_stream(ck, tmp, world, envs):
     res = sl.parallel(sl.cli_single, jobs)
     fails, reqs, keep = [], [], []
     for (action, sg, alg, match, kn, kid, data), (rc, out) in zip(meta, res):
-        ck.count("matrix", (action, sg, alg, match, kid == 77 and data is not signed and sg), nontrivial=True,
+        ck.count("matrix", (action, sg, alg, match, kid == 77 and data is not signed and sg, kid == 99), nontrivial=True,
                  sample={"action": action, "input": "singly signed" if sg else "unsigned", "alg": alg, "key": "matching" if match else f"mismatching ({kn})", "via": "cli"})
         why = oracle_single(data, rc == 0, out, keys, kn, alg, kid, action, sg, match)
         lr = sl.lib_single(tmp, data, kn, kid, alg, keys.dir, action)       # in-process: the exception class, for the model comparison
@@ -660,16 +667,22 @@ def tree_stream(ck, world, tmp, n_trees, faulty):
     return fails
 
 
-def party_config(ck, cfg, kms, root=True):
-    """gen_config's configuration for signing parties that keep script and keys together: no context anywhere, every node names the
-    KMS script of its party (or inherits it)"""
+def party_config(ck, cfg, kms, root=True, root_ctx=False):
+    """gen_config's configuration for signing parties that keep script and keys together: every node names the KMS script of its party
+    (or inherits it) and there is no context — or (root_ctx) the root names a key directory and nodes below write `context: null`,
+    which is not 'inherit' but 'the default store of my KMS script'"""
     c = {k: v for k, v in cfg.items() if k not in ("context", "kms-script", "dependencies")}
     mine = kms
     if root or ck.rng.random() < 0.6:
-        mine = "@KMSA@" if (root or ck.rng.random() < 0.4) else "@KMSB@"
+        mine = "@KMSA@" if ((root and not root_ctx) or ck.rng.random() < 0.4) else "@KMSB@"
         c["kms-script"] = mine
+    if root_ctx:
+        if root:
+            c["context"] = "@KA@"
+        elif ck.rng.random() < 0.7:
+            c["context"] = None
     if "dependencies" in cfg:
-        c["dependencies"] = {n: party_config(ck, d, mine, False) for n, d in cfg["dependencies"].items()} if isinstance(cfg["dependencies"], dict) else cfg["dependencies"]
+        c["dependencies"] = {n: party_config(ck, d, mine, False, root_ctx) for n, d in cfg["dependencies"].items()} if isinstance(cfg["dependencies"], dict) else cfg["dependencies"]
     return c
 
 
@@ -679,7 +692,7 @@ def party_stream(ck, world, tmp, n_trees):
     counter = [0]
     for i in range(n_trees):
         node = build_tree(ck, world, 0, ck.rng.choice([2, 2, 3]), counter)
-        cfg = party_config(ck, gen_config(ck, world, node, 0, "eddsa", "@KA@"), None)
+        cfg = party_config(ck, gen_config(ck, world, node, 0, "eddsa", "@KA@"), None, root_ctx=(i % 2 == 1))
         cfg["sign-script"] = "@W1@"
         via_cli = i % 4 == 3
         ok, out, calls, exn = run_tree(ck, world, tmp, node, cfg, {}, via_cli, f"party{i}")
